@@ -218,24 +218,19 @@ func secRun(in []byte) (interface{}, error) {
 	var rest []byte
 	runAbortable(func() { rest, _ = json.Marshal(metric.NewMetricRest()) })
 	tr.Emit(tracer.Ev{"e": "emit", "sink": "rest-metric", "fields": fieldsIn(string(rest)), "bytes": len(rest)})
-	// ---- every log line that carried a sentinel, and the totals
+	// ---- every log line that carried a sentinel (collected as the lines were written, whatever the volume), and the totals
 	sink.mu.Lock()
-	all := sink.kept.String()
+	leaks := append([]string(nil), sink.leaks...)
 	lines, nbytes := sink.lines, sink.bytes
-	sink.mu.Unlock()
 	byLevel := map[string]int{}
-	leaking := 0
-	for _, ln := range strings.Split(all, "\n") {
-		for _, lv := range []string{"[DEBUG]", "[INFO]", "[WARN]", "[ERROR]", "[PANIC]"} {
-			if strings.Contains(ln, lv) {
-				byLevel[lv]++
-			}
-		}
-		if f := fieldsIn(ln); len(f) > 0 {
-			leaking++
-			if leaking <= 20 {
-				tr.Emit(tracer.Ev{"e": "emit", "sink": "log", "fields": f, "bytes": len(ln), "text": ln})
-			}
+	for k, v := range sink.byLevel {
+		byLevel[k] = v
+	}
+	sink.mu.Unlock()
+	leaking := len(leaks)
+	for i, ln := range leaks {
+		if i < 40 {
+			tr.Emit(tracer.Ev{"e": "emit", "sink": "log", "fields": fieldsIn(ln), "bytes": len(ln), "text": ln})
 		}
 	}
 	tr.Emit(tracer.Ev{"e": "emit", "sink": "log", "fields": []string{}, "bytes": nbytes, "lines": lines})
